@@ -20,3 +20,34 @@
 /// fn main() { assert_eq!(format!("{:>3}", S(1)), "  1"); }
 /// ```
 pub struct C05PositionalIndex;
+
+/// C17: a parameter contradicting another one of the same attribute is a compile error, not "last wins".
+///
+/// ```compile_fail
+/// #[derive(Debug, derive_more::Display, derive_more::Error)]
+/// #[display("inner")]
+/// struct Inner;
+/// #[derive(Debug, derive_more::Display, derive_more::Error)]
+/// #[display("outer")]
+/// struct Outer {
+///     #[error(source, not(source))]
+///     inner: Inner,
+/// }
+/// fn main() {}
+/// ```
+///
+/// The compiling twin differs only in the second parameter:
+///
+/// ```
+/// #[derive(Debug, derive_more::Display, derive_more::Error)]
+/// #[display("inner")]
+/// struct Inner;
+/// #[derive(Debug, derive_more::Display, derive_more::Error)]
+/// #[display("outer")]
+/// struct Outer {
+///     #[error(source)]
+///     inner: Inner,
+/// }
+/// fn main() {}
+/// ```
+pub struct C17Contradiction;
